@@ -1,5 +1,7 @@
 #include <fault/util.hpp>
 
+#include <yaclib/fault/verif.hpp>
+
 namespace yaclib::detail {
 
 static std::uint32_t sSeed = 1239;
@@ -22,6 +24,20 @@ std::uint32_t GetSeed() {
 std::uint64_t GetRandNumber(std::uint64_t max) {
 #if YACLIB_FAULT == 2
   sRandCount++;
+#endif
+#ifdef YACLIB_VERIF
+  {
+    auto& hooks = verif::GetHooks();
+    std::uint64_t value = 0;
+    if (hooks.rand != nullptr && hooks.rand(max, &value)) {
+      return value;
+    }
+    if (hooks.on_rand != nullptr) {
+      value = eng() % max;
+      hooks.on_rand(max, value);
+      return value;
+    }
+  }
 #endif
   return eng() % max;
 }
